@@ -23,9 +23,9 @@ type seqCase struct {
 
 func seqHistories(which string) func(r *engine.Rec) {
 	return func(r *engine.Rec) {
-		maxLen := 8
+		maxLen := 10
 		if r.Tier == "thorough" {
-			maxLen = 11
+			maxLen = 13
 		}
 		n := 0
 		var rec func(capacity int, ops string, size int)
